@@ -482,6 +482,7 @@ fn run(ctx: &mut Ctx, c: &Seq, o: &mut Outcome) -> R<()> {
             if failed_request && docs.iter().zip(before.iter()).any(|(a, b)| a.entries != b.entries || a.handles != b.handles || a.sync != b.sync || a.subs != b.subs) {
                 return Err("harness bug: model changed on a failed request".into());
             }
+            o.count("requests_checked_against_model", 1);
             observe(&h, &ids, &docs, o, &what).await?;
             if o.failed() {
                 break;
